@@ -89,7 +89,7 @@ CHECKS = {
     "C01": dict(
         level="model_checking", design="DESIGN.md 4/C01",
         technique="TLA+ model of the loader's opcode loop against the record contract (RdbFile.tla / RdbContract.tla) model-checked by TLC for all operation sequences up to length 4-5; operation sequences concretised by an independent RDB writer and parsed by the real Loader, record attributes validated by TLC (RdbTrace.tla), key / type / DUMP payload bytes compared with what the writer put into the file",
-        text="TLC checks the opcode loop for every operation sequence (attributes bound to the next key, database tracking, script records, skipped metadata, chunk records); the real Loader is bound by trace validation over generated files covering format versions 3-9, every value type and compact encoding, all length and string forms for values and key names, sizes across the 6/14/32-bit boundaries, streams with consumer groups, module-aux blocks (64-bit ids, float/double), and hashes above the 16 MiB chunk limit, with byte-exact comparison of every payload and the footer check.",
+        text="TLC checks the opcode loop for every operation sequence (attributes bound to the next key, database tracking, script records, skipped metadata, chunk records); the real Loader is bound by trace validation over generated files covering format versions 3-9, every value type and compact encoding, all length and string forms for values and key names, sizes across the 6/14/32-bit boundaries, streams with consumer groups, module-aux blocks (64-bit ids, float/double), and hashes above the 16 MiB chunk limit, with byte-exact comparison of every payload and the footer check; the files reach the loader whole, through a bufio.Reader over short reads, and in byte-sized pieces.",
         note="Payload byte fidelity rests on the harness's independent writer (rdbref) which remembers each value's bytes; every delivered record is kept and re-verified at the end of its file; module values (types 6/7) not generated; pre-version-5 files have no checksum."),
     "C12": dict(
         level="model_checking", design="DESIGN.md 4/C12",
